@@ -149,6 +149,8 @@ pub enum G {
     Rec(u8, Box<G>),
     RecRef(u8),
     Lazy(Box<G>),
+    /// `a.nested_in(select_ref!{ Group(children) => children as an input })` (token-tree inputs, C16)
+    NestedIn(Box<G>),
     // ---- state
     StPush(Box<G>, u32),
     StObs(Box<G>),
@@ -180,7 +182,7 @@ impl G {
             OrNot(a) | Not(a) | Rewind(a) | Map(a, _) | To(a, _) | Ignored(a) | Filter(a, _)
             | TryMap(a, _, _) | TryMapWith(a, _, _) | ToSlice(a) | ToSpan(a) | MapSpan(a)
             | MapSlice(a) | Unwrapped(a) | IntoIter(a, _) | Validate(a, _, _) | Labelled(a, _, _)
-            | MapErr(a, _, _) | Memo(a) | Wrapped(a, _) | Rec(_, a) | Lazy(a) | StPush(a, _)
+            | MapErr(a, _, _) | Memo(a) | Wrapped(a, _) | Rec(_, a) | Lazy(a) | NestedIn(a) | StPush(a, _)
             | StObs(a) | WithState(a, _) | WithCtx(a, _) | MapCtx(a, _) | CxObs(a)
             | Track(a, _) => vec![a],
             Delim { inner, open, close } => vec![open, inner, close],
@@ -225,7 +227,7 @@ impl G {
             OrNot(a) | Not(a) | Rewind(a) | Map(a, _) | To(a, _) | Ignored(a) | Filter(a, _)
             | TryMap(a, _, _) | TryMapWith(a, _, _) | ToSlice(a) | ToSpan(a) | MapSpan(a)
             | MapSlice(a) | Unwrapped(a) | IntoIter(a, _) | Validate(a, _, _) | Labelled(a, _, _)
-            | MapErr(a, _, _) | Memo(a) | Wrapped(a, _) | Rec(_, a) | Lazy(a) | StPush(a, _)
+            | MapErr(a, _, _) | Memo(a) | Wrapped(a, _) | Rec(_, a) | Lazy(a) | NestedIn(a) | StPush(a, _)
             | StObs(a) | WithState(a, _) | WithCtx(a, _) | MapCtx(a, _) | CxObs(a)
             | Track(a, _) => vec![a],
             Delim { inner, open, close } => vec![open, inner, close],
@@ -358,6 +360,7 @@ impl G {
             }
             RecRef(_) => false,
             JustCfg(_) => false,
+            NestedIn(_) => true,
         }
     }
 }
@@ -496,6 +499,7 @@ pub fn render(g: &G) -> String {
         Rec(id, a) => format!("recursive(|r{}| {})", id, r(a)),
         RecRef(id) => format!("r{}", id),
         Lazy(a) => format!("{}.lazy()", r(a)),
+        NestedIn(a) => format!("{}.nested_in(group)", r(a)),
         StPush(a, t) => format!("{}.validate(push {})", r(a), t),
         StObs(a) => format!("{}.map_with(state)", r(a)),
         WithState(a, s) => format!("{}.with_state({})", r(a), s),
@@ -563,6 +567,8 @@ pub fn wf(g: &G) -> bool {
                 go(a, recs, guarded)
             }
             IntoIter(a, k) => *k <= 6 && go(a, recs, guarded),
+            // the group token is consumed before the inner parser starts (on the group's children)
+            NestedIn(a) => go(a, recs, true),
             Rep(r) => {
                 if !r.item.must_consume() {
                     return false;
@@ -769,4 +775,90 @@ pub fn shrink_candidates(g: &G) -> Vec<G> {
         }
     }
     out
+}
+
+// ---------------------------------------------------------------------------------------------
+// token trees (C16): a flat char sequence with group brackets <-> a laid-out tree with gapped spans
+
+pub const GOPEN: char = '⟦';
+pub const GCLOSE: char = '⟧';
+
+#[derive(Clone, Debug, PartialEq)]
+pub enum TreeTok {
+    Leaf(char),
+    /// children and the eoi span handed to the inner input
+    Group(Vec<TNode>, (usize, usize)),
+}
+#[derive(Clone, Debug, PartialEq)]
+pub struct TNode {
+    pub tok: TreeTok,
+    pub span: (usize, usize),
+}
+impl TNode {
+    /// the character the reference sees for this token
+    pub fn ch(&self) -> char {
+        match &self.tok {
+            TreeTok::Leaf(c) => *c,
+            TreeTok::Group(..) => GOPEN,
+        }
+    }
+}
+
+/// Parse a bracketed flat sequence into a tree (lenient: a stray closing bracket is dropped, an
+/// unclosed group is closed at the end) and lay it out with deterministic gapped spans.
+pub fn parse_tree(flat: &[char], seed: u64) -> (Vec<TNode>, (usize, usize)) {
+    let mut x = seed.wrapping_mul(0x9e3779b97f4a7c15) | 1;
+    let mut next = move |m: u64| {
+        x ^= x << 13;
+        x ^= x >> 7;
+        x ^= x << 17;
+        (x % m) as usize
+    };
+    fn go(flat: &[char], i: &mut usize, pos: &mut usize, top: bool, next: &mut dyn FnMut(u64) -> usize) -> Vec<TNode> {
+        let mut out = vec![];
+        while *i < flat.len() {
+            let c = flat[*i];
+            *i += 1;
+            if c == GCLOSE {
+                if top {
+                    continue;
+                }
+                return out;
+            }
+            *pos += [0, 0, 1, 2][next(4)];
+            if c == GOPEN {
+                let start = *pos;
+                *pos += 1;
+                let kids = go(flat, i, pos, false, next);
+                *pos += [0, 1][next(2)];
+                let close = *pos;
+                *pos += 1;
+                let eoi = match next(3) {
+                    0 => (start, close + 1),
+                    1 => (close, close + 1),
+                    _ => (close, close),
+                };
+                out.push(TNode { tok: TreeTok::Group(kids, eoi), span: (start, close + 1) });
+            } else {
+                let w = 1 + next(2);
+                out.push(TNode { tok: TreeTok::Leaf(c), span: (*pos, *pos + w) });
+                *pos += w;
+            }
+        }
+        out
+    }
+    let mut i = 0;
+    let mut pos = next(3);
+    let nodes = go(flat, &mut i, &mut pos, true, &mut next);
+    let end = pos + [0, 2][next(2)];
+    let eoi = if next(2) == 0 { (end, end) } else { (end, end + 1) };
+    (nodes, eoi)
+}
+
+/// maximal nesting depth of a tree
+pub fn tree_depth(nodes: &[TNode]) -> usize {
+    nodes.iter().map(|n| match &n.tok {
+        TreeTok::Leaf(_) => 0,
+        TreeTok::Group(k, _) => 1 + tree_depth(k),
+    }).max().unwrap_or(0)
 }
